@@ -1,5 +1,7 @@
 package refgen
 
+import "math"
+
 // Hand-shaped program families for the scoping property (C03) and the effect-order part of C02.
 // Each takes random parameters from the generator so that names collide (pool x y f).
 
@@ -12,10 +14,14 @@ func (g *Gen) Idiom() *Program {
 		x, y = "y", "x"
 	}
 	k := int64(1 + g.R.Intn(3))
-	pick := g.R.Intn(62)
-	if g.Scopey && ((pick >= 46 && pick < 52) || pick >= 58) {
-		// the array-concatenation, list-concatenation and float families belong to the C02 stream
-		pick = []int{24, 25, 26, 27, 52, 53, 54, 55}[g.R.Intn(8)]
+	pick := g.R.Intn(70)
+	if g.Scopey && ((pick >= 46 && pick < 52) || (pick >= 58 && pick < 62) || pick >= 66) {
+		// the array-concatenation, list-concatenation, float, division and string families belong to the C02 stream
+		pick = []int{24, 25, 26, 27, 52, 53, 54, 55, 62, 63, 64, 65}[g.R.Intn(12)]
+	}
+	if !g.Vocab.Ext && ((pick >= 46 && pick < 52) || pick >= 58) {
+		// importers whose models lack the extended vocabulary (C05, C09, C16) get the families of the core language
+		pick = g.R.Intn(46)
 	}
 	if pick >= 31 && pick < 45 {
 		pick = 24 + (pick-31)%4 // the families added for independent seeds (rounds 2 and 3) get the unused slots
@@ -444,6 +450,121 @@ func (g *Gen) Idiom() *Program {
 		default:
 			return &Program{Forms: []*Node{Defn("g", []string{"p"}, "r", Or(And(Var("p"), CallN("trace", Int(1))), CallN("trace", Int(2)))),
 				CallN("list", CallN("g", f), CallN("g", Int(0)), CallN("apply", Var("g"), Arr(f)))}}
+		}
+	case 62, 63:
+		// a closure made directly inside a block that never binds anything (newScope / let [] / a for without
+		// a def) escapes; a block entered later that binds a name free in the closure is not what it sees
+		esc := []func(e *Node) *Node{
+			func(e *Node) *Node { return Scope(e) },
+			func(e *Node) *Node { return Let(false, nil, nil, e) },
+			func(e *Node) *Node { return Let(true, nil, nil, e) },
+			func(e *Node) *Node {
+				return Begin(Def("i", Int(0)), For("", Nil(), CallN("<", Var("i"), Int(1)), Set("i", CallN("+", Var("i"), Int(1))), e))
+			},
+		}[g.R.Intn(4)]
+		later := func(name string, v int64, body *Node) *Node {
+			switch g.R.Intn(4) {
+			case 0:
+				return Let(false, []string{name}, []*Node{Int(v)}, body)
+			case 1:
+				return Let(true, []string{name}, []*Node{Int(v)}, body)
+			case 2:
+				return Scope(Def(name, Int(v)), body)
+			}
+			return For("", Def(name, Int(v)), CallN("<", Var(name), Int(v+1)), Set(name, CallN("+", Var(name), Int(1))), CallN("trace", body))
+		}
+		switch g.R.Intn(6) {
+		case 0:
+			return &Program{Forms: []*Node{Def(x, Int(1)), Def("g", Nil()), esc(Set("g", Fn(nil, "", Var(x)))), later(x, k+4, CallN("g")), CallN("g")}}
+		case 1:
+			return &Program{Forms: []*Node{Def(x, Int(1)), Defn("mk", nil, "", esc(Fn(nil, "", Var(x)))), Def("g", CallN("mk")),
+				Defn("h", nil, "", later(x, k+4, CallN("g"))), CallN("list", CallN("h"), later(x, 7, CallN("g")), CallN("g"))}}
+		case 2:
+			return &Program{Forms: []*Node{Def(x, Int(1)), Def("g", Nil()),
+				esc(Set("g", Fn(nil, "", Set(x, CallN("+", Var(x), Int(10))), Var(x)))),
+				Def("r", later(x, k+4, CallN("g"))), CallN("list", Var("r"), Var(x), CallN("g"))}}
+		case 3:
+			return &Program{Forms: []*Node{Def("g", Nil()), esc(Set("g", Fn(nil, "", Var(y)))), later(y, k+4, CallN("g"))}}
+		case 4:
+			return &Program{Forms: []*Node{Def(x, Int(1)), Def("a", Arr()),
+				For("", Def("i", Int(0)), CallN("<", Var("i"), Int(2)), Set("i", CallN("+", Var("i"), Int(1))),
+					esc(Set("a", CallN("append", Var("a"), Fn(nil, "", CallN("list", Var(x), Var("i"))))))),
+				later(x, k+4, CallN("map", Fn([]string{"h"}, "", CallN("h")), Var("a")))}}
+		default:
+			return &Program{Forms: []*Node{Def(x, Int(1)), Defn("f", []string{y}, "", Def("g", Nil()), esc(Set("g", Fn(nil, "", CallN("list", Var(x), Var(y))))),
+				later(x, k+4, later(y, 8, CallN("g")))), CallN("f", Int(2))}}
+		}
+	case 64, 65:
+		// a local (parameter, let / letseq binding, captured variable, def inside a function) named like a
+		// builtin shadows the builtin in callee position as in value position
+		bn := []string{"list", "first", "len", "cons", "not", "rest", "array", "append"}[g.R.Intn(8)]
+		sub := Fn([]string{"v"}, "r", CallN("+", Int(k+40), Int(0)))
+		arg := Arr(Int(1), Int(2))
+		switch g.R.Intn(7) {
+		case 0:
+			return &Program{Forms: []*Node{Defn("mk", []string{bn}, "", Fn([]string{x}, "", CallN(bn, Var(x)))), Call(CallN("mk", sub), arg)}}
+		case 1:
+			return &Program{Forms: []*Node{Defn("ap", []string{bn}, "", CallN(bn, arg)), CallN("list", CallN("ap", sub), CallN(bn, arg))}}
+		case 2:
+			return &Program{Forms: []*Node{Let(false, []string{bn}, []*Node{sub}, CallN(bn, arg)), CallN(bn, arg)}}
+		case 3:
+			return &Program{Forms: []*Node{Let(true, []string{bn, "r"}, []*Node{sub, CallN(bn, arg)}, Var("r"))}}
+		case 4:
+			return &Program{Forms: []*Node{Defn("f", []string{bn}, "", Let(false, []string{"g"}, []*Node{Fn(nil, "", CallN(bn, arg))}, CallN("g"))), CallN("f", sub)}}
+		case 5:
+			// value position and callee position together
+			return &Program{Forms: []*Node{Defn("f", []string{bn}, "", CallN("list", CallN(bn, arg), CallN("apply", Var(bn), Arr(arg)))), CallN("f", sub)}}
+		default:
+			return &Program{Forms: []*Node{Defn("f", []string{bn}, "", CallN("map", Fn([]string{"e"}, "", CallN(bn, Var("e"))), Arr(arg, arg))), CallN("f", sub)}}
+		}
+	case 66, 67:
+		// integer division: an exact quotient is an integer, an inexact one the float64 quotient (also for
+		// dividends beyond 2^53); folded left to right; division by zero is an error
+		bigs := []int64{math.MaxInt64, math.MaxInt64 - 1, 1<<53 + 1, 1<<53 + 3, 1<<62 + 1, -math.MaxInt64, 1<<40 + 1, 7, 9, 10, 6, -7, 1 << 62, 3 << 60}
+		a := bigs[g.R.Intn(len(bigs))]
+		if g.R.Intn(3) == 0 {
+			a = int64(g.R.Intn(1<<30))<<33 | int64(g.R.Intn(1<<30))<<3 | int64(g.R.Intn(8))
+			if g.R.Bool() {
+				a = -a
+			}
+		}
+		b := []int64{2, 3, 4, 5, 7, 10, -2, -3, 1, -1, 2, 3, 1 << 31, 3 << 20, 6}[g.R.Intn(15)]
+		switch g.R.Intn(6) {
+		case 0:
+			return &Program{Forms: []*Node{CallN("/", Int(a), Int(b))}}
+		case 1:
+			return &Program{Forms: []*Node{CallN("list", CallN("/", Int(a), Int(b)), CallN("/", Int(a), Int(b), Int(k+1)), CallN("/", Int(a)))}}
+		case 2:
+			return &Program{Forms: []*Node{Def(x, CallN("/", Int(a), Int(b))), Cond(Var(x), CallN("trace", Var(x)), Int(0)), CallN("list", Var(x), Var(x))}}
+		case 3:
+			return &Program{Forms: []*Node{Defn("f", []string{"p", "q"}, "", CallN("/", Var("p"), Var("q"))),
+				CallN("list", CallN("f", Int(a), Int(b)), CallN("f", Int(a-a%b), Int(b)), CallN("map", Fn([]string{"d"}, "", CallN("f", Int(a), Var("d"))), Arr(Int(2), Int(3), Int(4))))}}
+		case 4:
+			return &Program{Forms: []*Node{CallN("trace", Int(1)), CallN("/", Int(a), CallN("-", Int(b), Int(b))), CallN("trace", Int(2))}}
+		default:
+			return &Program{Forms: []*Node{CallN("+", Int(1), CallN("/", Int(a-a%b), Int(b))), CallN("list", CallN("/", Int(b), Int(a)), CallN("/", Int(0), Int(b)))}}
+		}
+	case 68, 69:
+		// strings: concat / append add characters as their UTF-8 encoding (all of it, beyond ASCII too)
+		chars := []rune{'a', 'é', 'λ', '世', '😀', 'z', 'ÿ'}
+		c1, c2 := Chr(chars[g.R.Intn(len(chars))]), Chr(chars[g.R.Intn(len(chars))])
+		switch g.R.Intn(7) {
+		case 0:
+			return &Program{Forms: []*Node{CallN("concat", Str("ab"), c1)}}
+		case 1:
+			return &Program{Forms: []*Node{CallN("list", CallN("concat", Str(""), c1, Str("x"), c2), CallN("append", Str("ab"), c1), CallN("concat", Str("q")))}}
+		case 2:
+			return &Program{Forms: []*Node{Def("s", CallN("concat", Str("a"), c1, c2)), CallN("list", CallN("len", Var("s")), Var("s"), CallN("==", Var("s"), Str("a"+string(rune(c1.D.I))+string(rune(c2.D.I)))))}}
+		case 3:
+			return &Program{Forms: []*Node{Def("s", Str("")),
+				For("", Def("i", Int(0)), CallN("<", Var("i"), Int(k+1)), Set("i", CallN("+", Var("i"), Int(1))), Set("s", CallN("concat", Var("s"), c1, Str("-")))), Var("s")}}
+		case 4:
+			return &Program{Forms: []*Node{Defn("f", []string{"c"}, "r", CallN("concat", Str("<"), Var("c"), Str(">"))),
+				CallN("map", Var("f"), CallN("list", c1, c2, Str("s")))}}
+		case 5:
+			return &Program{Forms: []*Node{CallN("trace", c1), CallN("concat", Str("a"), []*Node{Int(k), Arr(c1), Nil(), Flt(1)}[g.R.Intn(4)], c2)}}
+		default:
+			return &Program{Forms: []*Node{Def("s", Str("x")), CallN("list", CallN("concat", Var("s"), c1, Var("s")), Var("s"), Cond(c1, Int(1), Int(2)), CallN("list", c1, c2))}}
 		}
 	case 46, 47, 48:
 		// two concats onto the SAME array, then the first result is inspected; the array comes from append
